@@ -171,6 +171,11 @@ def main(tier, seed, replay=None):
                 ck.fail(f'{r2[0]} (history of {len(small["ops"])} steps over {case["handles"]} handles)',
                         {'kind': 'multi-handle-history', 'case': small, 'failing_step': r2[1]}, f'C08:{(r2[2] or {}).get("q", "exc")}')
     ck.cov['query_distribution'] = qdist
+    try:
+        import lookupcorr
+        lookupcorr.run(ck, tier, ncont=4 if tier == 'quick' else 30)   # ties Lookup.lookup_bulk (C08_bulk_lookup_*) to the generator
+    except Exception as e:
+        ck.obligation('lookup-generator correspondence executed', False, f'{type(e).__name__}: {e}', kind='correspondence')
     ck.sample(cases[0])
     ck.sample(cases[-1])
     import tracecheck as _tc
